@@ -65,6 +65,27 @@ private def parseTyS (s : String) : Option Ty :=
   | some (t, []) => some t
   | _ => none
 
+private def parseOper : String → Option Oper
+  | "add" => some .add | "sub" => some .sub | "mul" => some .mul | "div" => some .div | "pow" => some .pow
+  | "lt" => some .lt | "le" => some .le | "gt" => some .gt | "ge" => some .ge
+  | "eq" => some .eq | "ne" => some .ne | "concat" => some .concat
+  | _ => none
+
+/-- `monoop <operator> <0|1 compound>` → `<Interface> <method> <index in the interface>` -/
+def handleMonoOp : List String → String
+  | [o, c] =>
+    match parseOper o with
+    | none => "bad-op"
+    | some op =>
+      let m? := if c = "1" then compoundMethod op else if c = "0" then some op.method else none
+      match m? with
+      | none => "none"
+      | some (i, m) =>
+        match (ifaceMethods i).findIdx? (· = m) with
+        | some k => i ++ " " ++ m ++ " " ++ toString k
+        | none => "bad-model"
+  | _ => "bad-op"
+
 def handleMono : List String → String
   | [sig, inst, msig, callty, impls, ifaceM, implM, idx] =>
     let implTys := (if impls = "-" then [] else impls.splitOn ";").mapM parseTyS
